@@ -7,6 +7,7 @@ use crate::spec::*;
 use clif_core::{Access, Term, TRACE, ORACLE, Oracle};
 
 fn helper_fn(a: u64, _b: u64, _c: u64, _d: u64, _e: u64) -> u64 { a }
+fn helper_other(_a: u64, b: u64, _c: u64, _d: u64, _e: u64) -> u64 { b }
 
 fn regs_of(v: &[u64; 24]) -> [u64; 11] { [v[0], v[1], v[2], v[3], v[4], v[5], v[6], v[7], v[8], v[9], v[10]] }
 
@@ -30,6 +31,7 @@ fn same_access(a: &Access, s: &SAccess) -> bool {
 
 pub fn run_clif(opc: u8) {
     crate::arith::reset();
+    unsafe { clif_core::NAME_TEMPLATES_AGREE = crate::HELPER_NAME_TEMPLATES_AGREE; }
     unsafe { clif_core::ARITH = clif_core::Arith { mul64: crate::arith::mul64, div64: crate::arith::div64, rem64: crate::arith::rem64, mul32: crate::arith::mul32, div32: crate::arith::div32, rem32: crate::arith::rem32 }; }
     let insn = ebpf::Insn { opc, dst: kani::any(), src: kani::any(), off: kani::any(), imm: kani::any() };
     let si = SInsn { opc, dst: insn.dst, src: insn.src, off: insn.off, imm: insn.imm };
@@ -67,20 +69,28 @@ pub fn run_clif(opc: u8) {
     let load_data: u64 = kani::any();
     let call_ret: u64 = kani::any();
     unsafe { ORACLE = Oracle { load_data, call_ret, params: [mem.base, mem.len, mbuff.base, mbuff.len], stack_base, init_vars: init }; }
-    let has_helper: bool = kani::any();
+    // helpers only matter to CALL (registering them costs the rendering of their symbol names in every harness)
+    let is_call_op = opc == OP_CALL;
+    // (registered unconditionally for CALL: a symbolic NUMBER of symbols would make every name comparison symbolic)
+    let has_helper: bool = is_call_op;
     let hkey: u32 = kani::any();
     let mut helpers: HashMap<u32, ebpf::Helper> = HashMap::new();
     if has_helper { helpers.insert(hkey, helper_fn); }
+    // a second helper under another id: the call must reach the function registered under ITS id
+    let has_other: bool = is_call_op;
+    let okey: u32 = kani::any();
+    if has_other { kani::assume(okey != hkey); helpers.insert(okey, helper_other); }
     // vacuity guard: the opcode-specific part of the precondition (wf_facts) is witnessed natively by
     // `replay wf-witness` on every run, the environment part by the harness clif_env_precondition_satisfiable
     let r = CraneliftCompiler::new(helpers).compile_function(prog);
     let is_call = opc == OP_CALL;
+    let registered = (has_helper && hkey == insn.imm as u32) || (has_other && okey == insn.imm as u32);
     let clause: u8 = kani::any();
     if clause == 0 {
         // C04 / C08: eBPF-to-eBPF calls are refused; unknown helper ids are compile-time errors; nothing else fails
         if is_call && insn.src == 1 {
             assert!(r.is_err(), "ensures: a program containing an eBPF-to-eBPF call is refused by Cranelift compilation");
-        } else if is_call && !(has_helper && hkey == insn.imm as u32) {
+        } else if is_call && !registered {
             assert!(r.is_err(), "ensures: a call to an unregistered helper id is a compile-time error");
         } else {
             assert!(r.is_ok(), "ensures: every other verified instruction compiles");
@@ -93,7 +103,7 @@ pub fn run_clif(opc: u8) {
     let pre_regs = regs_of(&t.at_srcloc[0]);
     let lay = SLayout { mbuff, mem, stack: SRegion { base: stack_base, len: 512 }, allowed: None };
     let pre = SState { reg: pre_regs, pc: 0, depth: 0, frames: frames0() };
-    let oracle = SOracle { load_data, helper_present: has_helper && hkey == insn.imm as u32, helper_ret: call_ret, entry_usage: None, next_imm };
+    let oracle = SOracle { load_data, helper_present: registered, helper_ret: call_ret, entry_usage: None, next_imm };
     let want = spec_step(&pre, si, &lay, &oracle);
     let mem_class = opc & 7 <= 3 && !is_lddw;
     if clause == 1 && mem_class {
@@ -137,7 +147,16 @@ pub fn run_clif(opc: u8) {
         }
         4 => {
             if is_call {
-                match t.call { Some((_f, a)) => assert!(t.ncalls == 1 && a[0] == pre_regs[1] && a[1] == pre_regs[2] && a[2] == pre_regs[3] && a[3] == pre_regs[4] && a[4] == pre_regs[5], "ensures: helper called once with (r1..r5)"), None => assert!(false, "ensures: helper call emitted") }
+                match t.call {
+                    Some((f, a)) => {
+                        assert!(t.ncalls == 1 && a[0] == pre_regs[1] && a[1] == pre_regs[2] && a[2] == pre_regs[3] && a[3] == pre_regs[4] && a[4] == pre_regs[5], "ensures: helper called once with (r1..r5)");
+                        // the import is linked by NAME to the address registered with the JIT builder
+                        let target = match &r { Ok(p) => p.module.resolve(f), Err(_) => None };
+                        let want_fn = if has_helper && hkey == insn.imm as u32 { helper_fn as usize } else { helper_other as usize };
+                        assert!(target == Some(want_fn), "ensures: the function called is the one registered under the id of the instruction (symbol names agree)");
+                    }
+                    None => assert!(false, "ensures: helper call emitted"),
+                }
             } else {
                 assert!(t.ncalls == 0, "ensures: no helper call");
             }
